@@ -35,7 +35,9 @@ func (t *Tracer) trace(c context.Context, pgid int) (result runner.Result) {
 	defer cancel()
 
 	// handle cancellation
+	cancelDone := make(chan struct{})
 	go func() {
+		defer close(cancelDone)
 		<-cc.Done()
 		killAll(pgid)
 		if c.Err() != nil {
@@ -55,6 +57,10 @@ func (t *Tracer) trace(c context.Context, pgid int) (result runner.Result) {
 			result.Status = runner.StatusRunnerError
 			result.Error = fmt.Sprintf("%v", err)
 		}
+		// the cancellation goroutine signals the process group: let it finish before the group is
+		// reaped, afterwards the pid may belong to somebody else
+		cancel()
+		<-cancelDone
 		// kill all tracee upon return
 		killAll(pgid)
 		collectZombie(pgid)
